@@ -1,6 +1,7 @@
 import Driver.Proto
 import AdaptaVerif.Model.Compound
 import AdaptaVerif.Check.Layout
+import AdaptaVerif.Model.MakeFeasible
 /-
 Driver mode c07.
   gen-*   : tie. Re-generate variables and separation constraints with the model and compare them
@@ -11,6 +12,7 @@ Driver mode c07.
 -/
 namespace Driver.C07
 open Driver AdaptaVerif.Num AdaptaVerif.Model.Compound AdaptaVerif.Check.Layout
+open AdaptaVerif.Model (MakeFeasible.MF MakeFeasible.Scene)
 
 def tolC07 : Rat := 1 / 10000
 
@@ -162,6 +164,117 @@ def reportedOf (c : Case) : List Nat :=
 def allFinite (c : Case) (key : String) : Bool :=
   (c.get key).all fun l => (l.extract 1 5).all fun s => match dbl? s with | some d => d.isFinite | none => false
 
+
+/-! ### makeFeasible: the model of the control flow against the implementation (bN8)
+
+Harness lines (suffix `1` = first call of a repeat case): `order …` (idleConstraints after the sort),
+`mfout i …` rectangles right after makeFeasible(), `mfsat j k f…` the `satisfied` flags of compound
+constraint j, `mftrial …` the hook's trial log when the hook is compiled in. -/
+
+/-- every order decision of every solve was clear of the double rounding noise: the discrete
+    accepted/dropped sequence is then compared exactly (the solver's own threshold is 1e-10, an exactly
+    tight constraint has margin 1e-10; noise is ~1e-13·scale) -/
+def mfGuard : Rat := 1 / 50000000000
+
+structure MFInfo where
+  /-- compound constraints with a sub-constraint the MODEL drops -/
+  droppedModel : List Nat
+  /-- compound constraints with a sub-constraint the implementation marked unsatisfied -/
+  droppedImpl : List Nat
+  /-- compound constraints the model's combined (unchecked) solves flagged: marked satisfied, not enforced -/
+  brokenModel : List Nat := []
+  guarded : Bool
+  /-- model flags = implementation flags -/
+  flagsAgree : Bool
+  msg : String := ""
+  deriving Inhabited
+
+def ratAbs (r : Rat) : Rat := if r < 0 then -r else r
+
+/-- run the model of makeFeasible on `start` rectangles and compare with the `mfsat`/`mfout`/`mftrial`
+    lines carrying suffix `sfx`; returns the info for the classification, a DIVERGE message if the tie is
+    broken, and statistics -/
+def checkMF (c : Case) (sfx : String) (start : Array Rect) (ccs : List CC) (overlap : Bool) :
+    Option MFInfo × Option String × List (String × Nat) := Id.run do
+  let mut stats : List (String × Nat) := []
+  let satLines := c.get ("mfsat" ++ sfx)
+  if satLines.isEmpty then return (none, none, stats)
+  let some ord := c.get1 "order" | return (none, none, stats)
+  let order := (ord.toList.map nat!).filter (· < ccs.length)
+  let some scene := AdaptaVerif.Model.MakeFeasible.mkScene start ccs order
+    | return (none, none, bumpStats stats "mf.unsupported" 1)
+  let mf := AdaptaVerif.Model.MakeFeasible.makeFeasible scene.n scene.vx scene.vy scene.items
+  stats := bumpStats stats "mf.modelled" 1
+  stats := bumpStats stats "mf.trials" mf.log.size
+  stats := bumpStats stats "mf.trials.rejected" (mf.log.filter (!·.accepted)).size
+  stats := bumpStats stats "mf.trials.threw" (mf.log.filter (!·.returned)).size
+  stats := bumpStats stats "mf.trials.flag-on-earlier" (mf.log.filter fun t => t.flagged && t.returned).size
+  if mf.fuelOut then return (none, some s!"makeFeasible{sfx}: the solver model ran out of fuel", stats)
+  if mf.stuck then return (none, some s!"makeFeasible{sfx}: model: a sub-constraint without alternatives", stats)
+  if mf.escaped then return (none, some s!"makeFeasible{sfx}: model: satisfy() throws inside the combined branch, the implementation returned", stats)
+  if !mf.combineFlags.isEmpty then stats := bumpStats stats "mf.cases_with_combined_flags" 1
+  let guarded := mf.margin > mfGuard
+  stats := bumpStats stats (if guarded then "mf.guarded" else "mf.unguarded") 1
+  -- flags
+  let mut agree := true
+  let mut msg := ""
+  let mut droppedImpl : List Nat := []
+  for l in satLines do
+    let j := nat! (l[0]?.getD "0")
+    let k := nat! (l[1]?.getD "0")
+    let impl := (List.range k).map fun i => (l[2 + i]?.getD "0") == "1"
+    let isPage := match ccs[j]? with | some (.pageBounds ..) => true | _ => false
+    if isPage then continue
+    if impl.any (!·) then droppedImpl := j :: droppedImpl
+    let model := (List.range k).map fun i => mf.mark? j i
+    let nsubs := ((scene.items.find? (·.cc == j)).map (·.subs.length)).getD 0
+    if nsubs != k || model != impl.map some then
+      if agree then msg := s!"cc{j}: satisfied flags impl {impl} model {model}"
+      agree := false
+  if !mf.dropped.isEmpty then stats := bumpStats stats "mf.cases_with_drops" 1
+  -- the hook's trial log
+  let mut div : Option String := none
+  if guarded && !agree then
+    div := some s!"makeFeasible{sfx}: accepted/dropped sequence differs: {msg} (min decision margin {ratToString mf.margin})"
+  if (c.get1 ("mfhook" ++ sfx)).isSome then
+    stats := bumpStats stats "mf.hook" 1
+    let trials := (c.get ("mftrial" ++ sfx)).filter fun l => int! (l[0]?.getD "-1") ≥ 0
+    if guarded && div.isNone then
+      if trials.size != mf.log.size then
+        div := some s!"makeFeasible{sfx}: {trials.size} trials on user constraints in the implementation, model {mf.log.size}"
+      else
+        for (l, t) in trials.toList.zip mf.log.toList do
+          let ok := nat! l[0]! == t.cc && nat! l[1]! == t.dim.toNat' && nat! l[2]! == t.alt && nat! l[3]! == t.con.l
+                    && nat! l[4]! == t.con.r && num? l[5]! == some t.con.gap && (l[6]! == "1") == t.con.eq
+                    && (l[7]! == "1") == t.accepted
+          if !ok && div.isNone then
+            div := some s!"makeFeasible{sfx}: trial log differs: impl {l} model cc{t.cc} sub{t.sub} alt{t.alt} dim{t.dim.toNat'} ({t.con.l},{t.con.r},{ratToString t.con.gap},{t.con.eq}) accepted={t.accepted}"
+  -- positions (only when no later non-overlap phase moved the nodes)
+  if guarded && agree && !overlap && div.isNone then
+    match parseRects c ("mfout" ++ sfx) with
+    | some outs =>
+      if outs.size == start.size then
+        for i in [0:outs.size] do
+          for d in [Dim.x, Dim.y] do
+            let a := (outs[i]!).centre d
+            let b := mf.nodePos d i
+            if ratAbs (a - b) > (1 / 1000000 : Rat) * (1 + ratAbs b) && div.isNone then
+              div := some s!"makeFeasible{sfx}: node {i} dim {d.toNat'}: impl centre {ratToString a} model {ratToString b}"
+        stats := bumpStats stats "mf.positions_compared" 1
+    | none => pure ()
+  return (some { droppedModel := mf.droppedCCs, brokenModel := mf.brokenCCs, droppedImpl := droppedImpl.eraseDups, guarded := guarded,
+                 flagsAgree := agree, msg := msg }, div, stats)
+
+/-- is compound constraint `j` (or an alignment it refers to) in `dropped`? -/
+def excusedBy (ccs : List CC) (dropped : List Nat) (j : Nat) : Bool :=
+  dropped.contains j || (match ccs[j]? with | some cc => (ccRefs cc).any dropped.contains | none => false)
+
+/-- a violated compound constraint that makeFeasible had ACCEPTED (strict kind, never excused): the model
+    does not drop it, and either the tie is exact (guarded) or the implementation's own flags say accepted -/
+def strictViolation (ccs : List CC) (info : MFInfo) (j : Nat) : Bool :=
+  !(excusedBy ccs info.droppedModel j) && !(excusedBy ccs info.brokenModel j) &&
+    (info.guarded || !(excusedBy ccs info.droppedImpl j))
+
 def checkLayout (c : Case) : CaseResult := Id.run do
   let some (rects, ccs) := parseScene c | return { verdict := .diverge "unparsable case" }
   let mut stats : List (String × Nat) := []
@@ -188,6 +301,37 @@ def checkLayout (c : Case) : CaseResult := Id.run do
   let bad := violated tolC07 ccs pos reported
   let moved := outs != rects
   let exc := str "exc"
+  -- makeFeasible: model of the control flow against the implementation
+  let algo0 := str "algo"
+  let overlapOn := str "overlap" == "1"
+  let isRepeat := algo0 == "fdmf2" || algo0 == "fdmfre"
+  let (info1, div1, st1) := if isRepeat then checkMF c "1" rects ccs overlapOn else (none, none, [])
+  let start2 := if isRepeat then (match parseRects c "dragged" with | some d => if d.size == rects.size then d else rects | none => rects) else rects
+  let (info2, div2, st2) := checkMF c "" start2 ccs overlapOn
+  for (k, v) in st1 ++ st2 do stats := bumpStats stats k v
+  -- strict kind 1: a constraint violated right after a makeFeasible() call that had accepted it
+  let strictAt (sfx : String) (info : Option MFInfo) : Option String :=
+    match info, parseRects c ("mfout" ++ sfx) with
+    | some inf, some o =>
+      if o.size != rects.size then none else
+      match (violated tolC07 ccs (centres o) []).find? (strictViolation ccs inf) with
+      | some j =>
+        let kind := match ccs[j]? with | some cc => ccKind cc | none => "?"
+        some s!"makeFeasible-violates-accepted cc{j} {kind}: violated by more than 1e-4 right after makeFeasible{sfx}() although every sub-constraint of it was accepted (model drops: {inf.droppedModel}; impl flags drop: {inf.droppedImpl}; guarded={inf.guarded}; algo={algo0})"
+      | none => none
+    | _, _ => none
+  match strictAt "1" info1 with
+  | some m => return { verdict := .specfail m, stats := stats }
+  | none => pure ()
+  match strictAt "" info2 with
+  | some m => return { verdict := .specfail m, stats := stats }
+  | none => pure ()
+  match div1 with
+  | some m => return { verdict := .diverge m, stats := stats }
+  | none => pure ()
+  match div2 with
+  | some m => return { verdict := .diverge m, stats := stats }
+  | none => pure ()
   match bad with
   | j :: _ =>
     let kind := match ccs[j]? with | some cc => ccKind cc | none => "?"
@@ -203,7 +347,18 @@ def checkLayout (c : Case) : CaseResult := Id.run do
                else if algo == "fdmf" then "makeFeasible-only"
                else if (algo == "fdrun" || algo == "fdmfrun") && !reported.isEmpty then "fd-run,over-constrained"
                else "other"
-    return { verdict := .specfail s!"unreported-violation[{cls}] cc{j} {kind}: violated by more than 1e-4 and not in the unsatisfiable lists (reported: {reported}; all violated: {bad}; exc={exc})",
+    -- `makeFeasible-only` is the registered finding "makeFeasible drops silently": with the model at hand it is
+    -- excused only as class makeFeasible-drop (the MODEL drops that sub-constraint on this scene); the strict kind
+    -- was returned above
+    let dropNote := if cls != "makeFeasible-only" then "" else
+      match info2 with
+      | some inf => if excusedBy ccs inf.droppedModel j then s!" class=makeFeasible-drop (the model of makeFeasible drops {inf.droppedModel})"
+                    else if excusedBy ccs inf.brokenModel j then s!" class=makeFeasible-combined-unchecked (model: flagged unsatisfiable by the unchecked solve of a combined FixedRelativeConstraint, marked satisfied all the same: {inf.brokenModel})"
+                    else s!" class=makeFeasible-drop-unguarded (implementation flags drop {inf.droppedImpl}, model {inf.droppedModel}; a solver decision inside the rounding noise)"
+      | none => " class=unmodelled"
+    if cls == "makeFeasible-only" then
+      stats := bumpStats stats ("mf.excused" ++ (if dropNote.startsWith " class=makeFeasible-drop (" then ".model-drop" else if dropNote.startsWith " class=makeFeasible-combined" then ".model-combined" else if info2.isSome then ".unguarded" else ".unmodelled")) 1
+    return { verdict := .specfail s!"unreported-violation[{cls}] cc{j} {kind}: violated by more than 1e-4 and not in the unsatisfiable lists (reported: {reported}; all violated: {bad}; exc={exc}){dropNote}",
              stats := stats }
   | [] =>
     if exc != "none" then
